@@ -73,6 +73,25 @@ def decode_command_string(bcp_string) -> Tuple[str, dict]:
     return bcp_command.path, kwargs
 
 
+async def read_line(receiver) -> bytes:
+    """Read one line (including the newline) of any length from a stream reader.
+
+    StreamReader.readline() gives up on a line which is longer than the reader's buffer limit (64 KiB by default): it
+    raises ValueError and throws the buffered data away. BCP lines may be longer (e.g. json encoded lists), so collect
+    the line in pieces. At EOF the (possibly empty) rest is returned.
+    """
+    chunks = []
+    while True:
+        try:
+            chunks.append(await receiver.readuntil(b'\n'))
+            return b''.join(chunks)
+        except asyncio.LimitOverrunError as e:
+            chunks.append(await receiver.readexactly(e.consumed))
+        except asyncio.IncompleteReadError as e:
+            chunks.append(e.partial)
+            return b''.join(chunks)
+
+
 def encode_command_string(bcp_command, **kwargs) -> str:
     """Encode a BCP command and kwargs into a valid BCP command string.
 
@@ -140,7 +159,7 @@ class AsyncioBcpClientSocket():
     async def read_message(self):
         """Read the next message."""
         while True:
-            message = await self._receiver.readline()
+            message = await read_line(self._receiver)
 
             # handle EOF
             if not message:
@@ -300,7 +319,7 @@ class BCPClientSocket(BaseBcpClient):
     async def read_message(self):
         """Read the next message."""
         while True:
-            message = await self._receiver.readline()
+            message = await read_line(self._receiver)
 
             # handle EOF
             if not message:
